@@ -167,7 +167,7 @@ Section TakeFlow.
   Hypothesis Hresub : resub p = false.
   Hypothesis Hnonest : no_nest p = false.
   Hypothesis Hc14 : c14 p = false.
-  Let o := take_op max.
+  Local Notation o := (take_op max).
 
   (** the counts, and the two facts about the monitor state that [Inv] does not have *)
   Record FInv (c : cfg o) : Prop := {
@@ -204,30 +204,37 @@ Section TakeFlow.
            end.
 
   Ltac counts Htr :=
-    rewrite Htr, ?pin_step, ?pout_step, ?din_step, ?dout_step, ?hin_step, ?hout_step; cbn.
+    rewrite Htr, ?pin_step, ?pout_step, ?din_step, ?dout_step, ?hin_step, ?hout_step;
+    repeat match goal with
+           | H : ?X = pin (trace ?c) |- context [pin (trace ?c)] => rewrite <- H
+           | H : ?X = pout (trace ?c) |- context [pout (trace ?c)] => rewrite <- H
+           | H : ?X = din (trace ?c) |- context [din (trace ?c)] => rewrite <- H
+           | H : ?X = dout (trace ?c) |- context [dout (trace ?c)] => rewrite <- H
+           | H : ?X = hin (trace ?c) |- context [hin (trace ?c)] => rewrite <- H
+           | H : ?X = hout (trace ?c) |- context [hout (trace ?c)] => rewrite <- H
+           end; cbn.
 
-  Theorem finv_reach c : reach p g_std c -> FInv c.
+  Theorem finv_reach (c : cfg o) : reach p g_std c -> FInv c.
   Proof.
     induction 1 as [|c m Hr IH He].
     { constructor; cbn; auto; intros; discriminate. }
     pose proof (inv_reach Hmax Hns Hresub Hnonest Hc14 Hr) as HI.
-    pose proof (inv_reach Hmax Hns Hresub Hnonest Hc14 (reachS Hr He)) as HI'.
+    pose proof (inv_reach Hmax Hns Hresub Hnonest Hc14 (reachS m Hr He)) as HI'.
     pose proof (enabled_live _ _ _ _ He) as Hlive.
     pose proof (@step_disposed p o c m 0) as Hdisp.
     pose proof (@step_us_subd p o c m 0) as Hus.
     pose proof (@step_subd p o c m 0) as Hsubd.
     pose proof (i_dead HI') as Hd'.
     destruct IH as [Ile Ieq Igr Ifull Isubd].
-    set (Pi := pin (trace c)) in *. set (Po := pout (trace c)) in *.
-    set (Di := din (trace c)) in *. set (Do := dout (trace c)) in *.
-    set (Gi := hin (trace c)) in *. set (Go := hout (trace c)) in *.
-    clearbody Pi Po Di Do Gi Go.
+    remember (pin (trace c)) as Pi eqn:EPi. remember (pout (trace c)) as Po eqn:EPo.
+    remember (din (trace c)) as Di eqn:EDi. remember (dout (trace c)) as Do eqn:EDo.
+    remember (hin (trace c)) as Gi eqn:EGi. remember (hout (trace c)) as Go eqn:EGo.
     destruct m as [inp|].
     - pose proof (enabled_deliverable _ _ _ _ He) as Hdel.
       destruct (handle o inp (cst c)) as [[s' os] a] eqn:Hh.
       pose proof (step_in_trace p c inp Hlive Hdel Hh) as Htr.
       destruct (step_in p c inp Hlive Hdel Hh) as (Hc & _ & Hm & Hd).
-      rewrite Hd' in Hd.
+      pose proof (eq_trans (eq_sym Hd) Hd') as Hdd. clear Hd.
       destruct inp as [[|s] aux|[|s] u|[|i] d|s].
       + (* the subscription *)
         cbn in Hh. inj Hh s' os a.
@@ -343,7 +350,7 @@ Section TakeFlow.
       destruct (resume o k (cst c)) as [[s' os] a] eqn:Hres.
       pose proof (step_ret_trace p c Hlive Hst Hres) as Htr.
       destruct (step_ret p c Hlive Hst Hres) as (Hc & _ & Hm & Hd).
-      rewrite Hd' in Hd.
+      pose proof (eq_trans (eq_sym Hd) Hd') as Hdd. clear Hd.
       destruct k as [|t|]; cbn in Hres; split_ifs Hres; inj Hres s' os a; try discriminate.
       + constructor;
           [ counts Htr; lia
@@ -355,7 +362,7 @@ Section TakeFlow.
         match goal with H : (_ && _) = true |- _ => apply andb_prop in H; destruct H as [Et Een] end.
         apply Nat.eqb_eq in Et. subst t. apply negb_true_iff in Een.
         pose proof (i_phase HI) as Hph. rewrite Hst in Hph.
-        pose proof (phase_nth _ _ _ Hph Een) as Hfull.
+        pose proof (@phase_nth _ _ _ _ _ Hph Een) as Hfull.
         constructor.
         * counts Htr. lia.
         * rewrite Hc. cbn. intros Hlt. counts Htr. lia.
@@ -377,14 +384,14 @@ Section TakeFlow.
   Qed.
 
   (** the data delivered so far are counted by [tk_taken] *)
-  Lemma dout_taken c : reach p g_std c -> dout (trace c) = tk_taken (cst c).
+  Lemma dout_taken (c : cfg o) : reach p g_std c -> dout (trace c) = tk_taken (cst c).
   Proof.
     intros Hr. destruct (tinv_reach Hmax Hns Hresub Hnonest Hc14 Hr) as [Hlen Hout].
     now rewrite dout_data_out, Hout, firstn_length, Hlen.
   Qed.
 
   (** at rest with the sink live the quota is not full and the upstream is live *)
-  Lemma rest_live c :
+  Lemma rest_live (c : cfg o) :
     reach p g_std c -> stack c = [] -> sk (ms c) 0 = SLive ->
     us (ms c) 0 = ULive /\ tk_taken (cst c) < max.
   Proof.
@@ -401,11 +408,9 @@ Section TakeFlow.
     split.
     - intros i s s' os cl k Hh.
       destruct i as [[|j] aux|[|j] [|e|]|[|j] [|v|e|]|j]; cbn -[Nat.ltb] in Hh;
-        split_ifs Hh; injection Hh as _ _ Hc; try discriminate;
-        injection Hc as <- _; unfold port0; eauto.
+        split_ifs Hh; inversion Hh; subst; unfold port0; eauto.
     - intros fr s s' os cl k Hh.
-      destruct fr as [|t|]; cbn in Hh; split_ifs Hh; injection Hh as _ _ Hc; try discriminate;
-        injection Hc as <- _; unfold port0; eauto.
+      destruct fr as [|t|]; cbn in Hh; split_ifs Hh; inversion Hh; subst; unfold port0; eauto.
   Qed.
 
   Theorem take_stage_flow_sec : stage_flow o p (Some max).
@@ -434,5 +439,5 @@ End TakeFlow.
 Theorem take_stage_flow (n : nat) p :
   nsinks p = 1 -> resub p = false -> no_nest p = false -> c14 p = false -> 1 <= n ->
   stage_flow (take_op n) p (Some n).
-Proof. intros H1 H2 H3 H4 Hn. exact (take_stage_flow_sec Hn H1 H2 H3 H4). Qed.
+Proof. intros H1 H2 H3 H4 Hn. exact (@take_stage_flow_sec n Hn p H1 H2 H3 H4). Qed.
 Print Assumptions take_stage_flow.
